@@ -399,7 +399,7 @@ class World:
     """Deterministic resolver outcomes: a function of (seed, response path)."""
 
     def __init__(self, seed, schema, p_raise=0.1, p_null=0.15, p_null_nn=0.08, nonfinite=False, odd_scalars=True, min_items=0,
-                 p_complete=0.0, nonstr_messages=True, bad_ext=False):
+                 p_complete=0.0, nonstr_messages=True, bad_ext=False, slow_deep_ms=0):
         self.seed = seed
         self.schema = schema
         self.p_raise, self.p_null, self.p_null_nn = p_raise, p_null, p_null_nn
@@ -410,6 +410,7 @@ class World:
         self.nonstr_messages = nonstr_messages
         self.injected_nonstr = False
         self.bad_ext = bad_ext
+        self.slow_deep_ms = slow_deep_ms
         self.injected_bad_ext = False
         self.completion_raised = set()   # field paths whose value raised ResolverError while being COMPLETED
         self.calls = []          # [(path tuple, field type, outcome)]
@@ -518,6 +519,9 @@ class World:
         from py_gql.exc import ResolverError
 
         path = tuple(info.path)
+        if self.slow_deep_ms and len(path) >= 4:
+            import time
+            time.sleep(self.slow_deep_ms / 1000.0)      # a slow resolver deep in the tree (late-workers stress)
         o = self.outcome(path, ftype)
         self.calls.append((path, ftype, [n.loc[0] for n in info.nodes if n.loc], o))
         if o[0] == "raised":
